@@ -33,7 +33,8 @@ def falsify(ctx):
 def replay(ctx, hit):
     from ..worker import cmps_from
     try:
-        h, _ = _c11.check_case([tuple(x) for x in hit["input"]], cmps_from(hit["cmps"]), hit["job"], stages.make_registry(), True)
+        h, _ = _c11.check_case([tuple(x) for x in hit["input"]], cmps_from(hit["cmps"]), hit["job"],
+                               stages.make_registry(datetime=bool(hit.get("datetime"))), True)
     except stages.TooCostly:
         raise
     except Exception as e:  # noqa
